@@ -49,6 +49,8 @@ type World struct {
 	Files   []string
 	FastPkg *packages.Package // fasthttp syntax (fiber lemma), loaded on demand
 
+	callers map[*FuncInfo]map[*FuncInfo]bool
+
 	ssaProg *ssa.Program
 	ssaPkgs map[*packages.Package]*ssa.Package
 }
@@ -203,6 +205,78 @@ func funcDisplayName(f *types.Func) string {
 		return name + "." + f.Name()
 	}
 	return f.Name()
+}
+
+// isReceiver reports whether o is the receiver variable of some method.
+func (w *World) isReceiver(o types.Object) bool {
+	if o == nil {
+		return false
+	}
+	for _, fi := range w.Decls {
+		if fi.Decl.Recv != nil {
+			for _, f := range fi.Decl.Recv.List {
+				for _, n := range f.Names {
+					if fi.Pkg.TypesInfo.Defs[n] == o {
+						return true
+					}
+				}
+			}
+		}
+	}
+	return false
+}
+
+// Callers maps every repository function to the declared functions that call
+// it statically (calls inside function literals count for the enclosing function).
+func (w *World) Callers() map[*FuncInfo]map[*FuncInfo]bool {
+	if w.callers != nil {
+		return w.callers
+	}
+	w.callers = map[*FuncInfo]map[*FuncInfo]bool{}
+	for _, fi := range w.Decls {
+		for _, c := range callsIn(fi.Decl.Body, true) {
+			if cal := callee(fi.Pkg.TypesInfo, c); cal != nil {
+				if t := w.Decls[cal]; t != nil {
+					if w.callers[t] == nil {
+						w.callers[t] = map[*FuncInfo]bool{}
+					}
+					w.callers[t][fi] = true
+				}
+			}
+		}
+	}
+	return w.callers
+}
+
+// HelperClosure extends a set of functions with the unexported functions all
+// of whose static callers are already in the set (private helpers).
+func (w *World) HelperClosure(base map[*FuncInfo]string) map[*FuncInfo]string {
+	out := map[*FuncInfo]string{}
+	for k, v := range base {
+		out[k] = v
+	}
+	callers := w.Callers()
+	for changed := true; changed; {
+		changed = false
+		for _, fi := range w.Decls {
+			if _, ok := out[fi]; ok || fi.Obj.Exported() || len(callers[fi]) == 0 {
+				continue
+			}
+			all, why := true, ""
+			for c := range callers[fi] {
+				if v, ok := out[c]; ok {
+					why = v
+				} else {
+					all = false
+				}
+			}
+			if all {
+				out[fi] = "helper of: " + why
+				changed = true
+			}
+		}
+	}
+	return out
 }
 
 // Fn looks a function up by display name in a package; nil if absent.
